@@ -203,6 +203,13 @@ func c19goident(maxParts, maxWordLen int, initialisms []string) {
 		zzverif.AssertUnlessKnown(ok, "C19 DecodeGoCamelCase lost a word boundary", "c19-digit-tail", true)
 	default:
 		zzverif.Assert(ok, "C19 DecodeGoCamelCase lost a word boundary")
+		if np == 1 {
+			// the result belongs to the caller: whatever it does with it, decoding the same
+			// identifier again gives the same words
+			dec[0] = "scribbled"
+			dec2, err2 := DecodeGoCamelCase(name)
+			zzverif.Assert(err2 == nil && len(dec2) == 1 && zzverif.StrEq(dec2[0], parts[0].want), "C19 DecodeGoCamelCase: decoding the same identifier again gave different words after the caller modified the first result")
+		}
 	}
 	zzverif.Reached("c19-goident-end")
 }
